@@ -1449,6 +1449,40 @@ class Base58EncodeLoops:
             yield dict(b=b)
 
 
+@proof("C06", "crypto.util.big-endian")
+class CryptoUtilBigEndian:
+    """BOUNDED stand-in for the two contracts the all-lengths Base58 proofs use modularly: bytes_to_int(b) is the big-endian
+    value of a non-empty byte string, int_to_bytes(n) is the minimal big-endian byte string of n > 0 (and one zero byte for
+    0, remark R6), and they are inverse on byte strings without a leading zero byte"""
+    bounded_only = True
+    inputs = dict(b=TBytes())
+    note = "112 byte strings (the Base58 sample set and zero-led strings) and the values 0..300, 2**k - 1, 2**k, 2**k + 1 for k <= 520"
+
+    def requires(b):
+        return len(b) >= 1
+
+    def run(b):
+        n = _BYTES_TO_INT(b)
+        return n, _INT_TO_BYTES(n), _BYTES_TO_INT(bytearray(b))
+
+    def ensures_value_is_big_endian(b, result):
+        return result[0] == int.from_bytes(b, 'big') and result[2] == result[0]
+
+    def ensures_bytes_are_minimal_big_endian(b, result):
+        return result[1] == (spec_int_to_bytes(result[0]) if result[0] > 0 else b'\x00')
+
+    def ensures_inverse_without_leading_zero(b, result):
+        return b[0] == 0 or result[1] == b
+
+    def samples():
+        for b in _b58_samples():
+            yield dict(b=b)
+        for b in (b'\x00', b'\x00\x00', b'\x00\x80', b'\x00\x00\xff\x01\x02', b'\x00\x7f', b'\x80', b'\x00\x00\x00\x80\x00'):
+            yield dict(b=b)
+        for n in list(range(1, 301)) + [2 ** k + d for k in range(1, 521, 7) for d in (-1, 0, 1)]:
+            yield dict(b=spec_int_to_bytes(n))
+
+
 @proof("C06", "base58.numeral")
 class Base58Numeral:
     """BOUNDED stand-in for the contract of the Base58 numeral conversion used modularly above (the loops have symbolic
